@@ -205,6 +205,10 @@ class Hooks:
         """f: a stdlib callable about to be applied."""
         return NotImplemented
 
+    def open_file(self, interp, args, kwargs, node):
+        """The interpreted code calls open(...): return an abstract file object or raise Incomplete."""
+        raise Incomplete("open() not interpreted")
+
     def on_text(self, interp, node, frame, value):
         pass
 
@@ -446,7 +450,7 @@ class Interp:
         args = [conv(a) for a in args]
         kwargs = {k: conv(v) for k, v in kwargs.items()}
         if f is builtins.open:
-            raise Incomplete("open() not interpreted")
+            return self.hooks.open_file(self, args, kwargs, None)
         try:
             return f(*args, **kwargs)
         except PyRaise:
@@ -495,7 +499,7 @@ class Interp:
                     return args[2]
                 raise
         if name == "open":
-            raise Incomplete("open() not interpreted")
+            return self.hooks.open_file(self, args, kwargs, node)
         if name == "iter":
             return iter(list(self.iterate(args[0], node)))
         if name == "next":
@@ -795,6 +799,22 @@ class Interp:
         elif t is ast.FunctionDef:
             name = mangle(st.name, frame.cls.name if frame.cls else None)
             env.vars[name] = Closure(st, env, frame, st.name)
+        elif t is ast.With:
+            entered = []
+            try:
+                for item in st.items:
+                    cm = self.eval(item.context_expr, env, frame)
+                    enter = getattr(cm, "sa_enter", None)
+                    if enter is None:
+                        raise Incomplete(f"context manager {cm!r} at {frame.module.relpath}:{st.lineno} is not modelled")
+                    v = enter(self)
+                    entered.append(cm)
+                    if item.optional_vars is not None:
+                        self.assign(item.optional_vars, v, env, frame)
+                self.exec_block(st.body, env, frame)
+            finally:
+                for cm in reversed(entered):
+                    cm.sa_exit(self)
         elif t is ast.Assert:
             if not self.truth(self.eval(st.test, env, frame), st):
                 raise PyRaise(AssertionError, (), st)
